@@ -5,7 +5,7 @@
    finite history over any number of threads (a list of operations tagged with thread ids IS an
    interleaving). *)
 From Coq Require Import List Arith Bool.
-From TLV Require Import Model.Backend Proofs.BackendProofs Proofs.BackendNI.
+From TLV Require Import Model.Backend Proofs.BackendProofs Proofs.BackendNI Proofs.BackendTwo Proofs.BackendMicro.
 Import ListNotations.
 
 (* P1 view: after any history a thread's backend is its own most recent effective selection
@@ -36,6 +36,37 @@ Theorem C17_global_selection_published : forall (R : rules) (c : cfg) (s : st) (
   cur (nxt R c s (Set_ t x false)) u = b /\ cur (nxt R c s (Enter t x false)) u = b.
 Proof. exact global_selection_published. Qed.
 Print Assumptions C17_global_selection_published.
+
+(* ... and leaving a NON-local context publishes the restored backend to every thread without a
+   selection of its own (the dual of isolation; holds for either exit rule) *)
+Theorem C17_global_exit_published : forall (R : rules) (c : cfg) (s : st) (t : tid) (e : bool) (old : inst)
+    (k : list (inst * bool)) (u : tid),
+  wf R s -> ctx s t = (old, false) :: k -> tls s u = None -> u <> t ->
+  cur (nxt R c s (Exit_ t e)) u = old /\ shared (nxt R c s (Exit_ t e)) = old.
+Proof. exact global_exit_published. Qed.
+Print Assumptions C17_global_exit_published.
+
+(* P6 "and, independently, the active tensor-algebra backend": with both managers side by side
+   (m = false: tensorly.backend, m = true: tensorly.tenalg) an operation on one manager leaves the
+   whole state of the other untouched; every mixed history factors into the two single-manager
+   histories (final states and traces); hence what a thread observes through a manager is the view
+   computed from the operations on THAT manager alone *)
+Theorem C17_other_manager_untouched : forall (R : rules) (cb ct : cfg) (s : st2) (m : bool) (o : op) (m' : bool),
+  m' <> m -> on m' (nxt2 R cb ct s (m, o)) = on m' s.
+Proof. exact other_manager_untouched. Qed.
+Print Assumptions C17_other_manager_untouched.
+
+Theorem C17_mixed_history_factors : forall (R : rules) (cb ct : cfg) (m : bool) (h : list mop) (s : st2),
+  on m (run2 R cb ct s h) = run R (cfg2 cb ct m) (on m s) (proj m h) /\
+  proj m (trace2 R cb ct s h) = trace R (cfg2 cb ct m) (on m s) (proj m h).
+Proof. exact mixed_history_factors. Qed.
+Print Assumptions C17_mixed_history_factors.
+
+Theorem C17_managers_independent : forall (R : rules) (cb ct : cfg) (m : bool) (h : list mop) (s : st2) (t : tid),
+  cur (on m (run2 R cb ct s h)) t
+  = view (tls (on m s) t) (shared (on m s)) (events R (cfg2 cb ct m) (on m s) (proj m h)) t.
+Proof. exact managers_independent. Qed.
+Print Assumptions C17_managers_independent.
 
 (* P2 isolation, one operation: a thread-local set, the enter AND the exit of a thread-local
    context, leave every other thread's backend unchanged *)
@@ -126,6 +157,81 @@ Theorem C17_non_instance_rejected : forall (R : rules) (c : cfg) (i : inst),
 Proof. exact non_instance_rejected. Qed.
 Print Assumptions C17_non_instance_rejected.
 
+(* P5 micro-steps ("in any interleaving" below the level of whole operations).  Every operation is
+   a program of acts (Model/Backend.v, last part: what a thread switch can separate); a schedule is any
+   list of "thread t begins operation o" / "thread t executes its next act".  The programs are well
+   formed (every act that touches the shared default is an effect point), every operation has ONE
+   effect point except the entry of a context, which has two (the read of the current backend, the
+   selection) *)
+Theorem C17_micro_programs_wellformed : forall (R : rules) (c : cfg) (p : priv) (o : op),
+  has_lp (compile R c p o) = true /\ wfp (compile R c p o).
+Proof. exact compile_wf. Qed.
+Print Assumptions C17_micro_programs_wellformed.
+
+Theorem C17_micro_effect_points : forall (R : rules) (c : cfg) (p : priv) (o : op),
+  count_lp (compile R c p o) = match o with Enter _ _ _ => 2 | _ => 1 end.
+Proof. exact compile_count. Qed.
+Print Assumptions C17_micro_effect_points.
+
+(* the program of an operation executed without interruption IS the operation of the atomic machine
+   (observable state: shared default, every thread's selection and context stack; answer returned) *)
+Theorem C17_micro_program_is_operation : forall (R : rules) (c : cfg) (b : bst) (o : op),
+  seqv (to_st (astep R c b (AOp o))) (nxt R c (to_st b) o) /\
+  (forall t, p_out (b_priv (astep R c b (AOp o)) t)
+             = p_out (b_priv b t) ++ (if Nat.eqb (thr o) t then [out R c (to_st b) o] else [])).
+Proof. exact astep_op. Qed.
+Print Assumptions C17_micro_program_is_operation.
+
+(* reduction: EVERY schedule of the acts of any operations of any number of threads, run until no
+   operation is in flight, ends in exactly the state (shared default, every thread's selection,
+   context stack, saved backend, sequence of answers received) of the SEQUENTIAL execution of the
+   blocks in the order in which they took effect *)
+Theorem C17_micro_atomic : forall (R : rules) (c : cfg) (b0 : bst) (l : list oev),
+  let s := fst (orun R c (quiet b0) l) in
+  let h := snd (orun R c (quiet b0) l) in
+  (forall t, m_pend (o_m s) t = []) ->
+  b_shared (m_b (o_m s)) = b_shared (arun R c b0 h) /\
+  forall t, b_priv (m_b (o_m s)) t = b_priv (arun R c b0 h) t.
+Proof. exact micro_atomic. Qed.
+Print Assumptions C17_micro_atomic.
+
+(* ... and whenever the two halves of every context entry took effect with no block of another
+   thread in between, that is the atomic history h of whole operations: same final observable state,
+   every thread received exactly the answers of h *)
+Theorem C17_micro_atomic_ops : forall (R : rules) (c : cfg) (b0 : bst) (l : list oev) (h : list op),
+  let s := fst (orun R c (quiet b0) l) in
+  (forall t, m_pend (o_m s) t = []) ->
+  snd (orun R c (quiet b0) l) = flat h ->
+  seqv (to_st (m_b (o_m s))) (run R c (to_st b0) h) /\
+  forall t, p_out (b_priv (m_b (o_m s)) t) = p_out (b_priv b0 t) ++ own_trace R c t (to_st b0) h.
+Proof. exact micro_atomic_ops. Qed.
+Print Assumptions C17_micro_atomic_ops.
+
+(* the first half of a context entry depends on the shared default only if the entering thread
+   holds no selection of its own *)
+Theorem C17_micro_save_private : forall (c : cfg) (sh1 sh2 : inst) (p : priv),
+  p_tls p <> None -> act_priv c sh1 p ASave = act_priv c sh2 p ASave.
+Proof. exact save_private. Qed.
+Print Assumptions C17_micro_save_private.
+
+(* "backend_context entry is atomic" is refuted (repaired rules): a thread WITHOUT a selection of its
+   own enters a non-local context while another thread completes a non-local set_backend between the
+   entry's read and its write; a third thread then sees bka, and numpy after the exit - neither
+   order of the whole operations gives these answers.  (Documented behaviour of the non-thread-safe
+   flavour, not a violation of C17, which quantifies over interleavings of whole operations.) *)
+Theorem C17_micro_enter_atomic_refuted :
+  let r := orun fixed_rules cfg0 (quiet b00) sched_race in
+  (forall t, m_pend (o_m (fst r)) t = []) /\
+  snd r = [ASaveOp 1; AOp (Set_ 2 (SName 2) false); AEnterRest 1 (SName 1) false; AOp (Query 3);
+           AOp (Exit_ 1 false); AOp (Query 3)] /\
+  p_out (b_priv (m_b (o_m (fst r))) 3) = [OName 1; OName 0] /\
+  own_trace fixed_rules cfg0 3 (to_st b00)
+    [Enter 1 (SName 1) false; Set_ 2 (SName 2) false; Query 3; Exit_ 1 false; Query 3] = [OName 2; OName 0] /\
+  own_trace fixed_rules cfg0 3 (to_st b00)
+    [Set_ 2 (SName 2) false; Enter 1 (SName 1) false; Query 3; Exit_ 1 false; Query 3] = [OName 1; OName 2].
+Proof. exact enter_not_atomic. Qed.
+Print Assumptions C17_micro_enter_atomic_refuted.
+
 (* the two rules of the pinned tree, kept as documentation: both are refuted *)
 Theorem C17_old_exit_rule_refuted :
   exists h t', Forall (fun o => thr o = 1 /\ flag_local o = true) h /\ t' <> 1 /\
@@ -167,3 +273,25 @@ Proof.
   eapply seg_enter; [reflexivity|]. apply seg_query. apply seg_other; [discriminate|].
   apply seg_exit. apply seg_other; [discriminate|]. apply seg_nil.
 Qed.
+
+(* the two managers side by side: thread 1 selects through tensorly.tenalg inside a tensorly.backend
+   context; each manager's trace is that of its own sub-history *)
+Example C17_mixed_nonvacuous :
+  let h := [(false, Enter 1 (SName 1) true); (true, Set_ 1 (SName 2) false); (false, Query 1); (true, Query 1);
+            (true, Query 2); (false, Query 2); (false, Exit_ 1 false); (false, Query 1); (true, Query 1)] in
+  trace2 fixed_rules cfg0 cfg0 (init2 (fun _ => None)) h
+  = [(false, ODone); (true, ODone); (false, OName 1); (true, OName 2); (true, OName 2); (false, OName 0);
+     (false, ODone); (false, OName 0); (true, OName 2)] /\
+  proj true h = [Set_ 1 (SName 2) false; Query 1; Query 2; Query 1].
+Proof. vm_compute. split; reflexivity. Qed.
+
+(* non-vacuity of C17_micro_atomic_ops: the acts of a non-local set_backend of thread 1 and of a
+   thread-local context entry of thread 2 interleaved act by act; quiescent at the end; linearised
+   as the flat history *)
+Example C17_micro_atomic_ops_nonvacuous :
+  let r := orun fixed_rules cfg0 (quiet b00) sched_ok in
+  (forall t, m_pend (o_m (fst r)) t = []) /\
+  snd r = flat [Enter 2 (SInst (Obj 0)) true; Set_ 1 (SName 1) false; Query 2; Query 3] /\
+  p_out (b_priv (m_b (o_m (fst r))) 2) = [ODone; OName 1] /\
+  p_out (b_priv (m_b (o_m (fst r))) 3) = [OName 1].
+Proof. exact micro_atomic_ops_nonvacuous. Qed.
